@@ -30,7 +30,7 @@ LEVEL_NOTE = ("virtual clock (async_solipsism + time_machine); timer lateness is
 RULE = ("seeded configurations x latency scripts x addition scripts; distinct = canonical case JSON; non-trivial = >=8 "
         "ticks observed and (a latency >= 1 period or a series added while running or a non-aligned creation phase)")
 REQUIRED_BUCKETS = ["align:none", "align:epoch", "align:past-nonmultiple", "align:future", "creation-exactly-aligned",
-                    "creation-1us-off", "latency>=1period", "latency-several-periods", "series-added-between-ticks",
+                    "creation-1us-off", "align_to-in-non-utc-timezone", "latency>=1period", "latency-several-periods", "series-added-between-ticks",
                     "series-added-during-slow-tick", "catch-up-observed", "multi-series", "actor-tier",
                     "actor-tier:timer-late>=1period", "series-ended:SourceStoppedError",
                     "series-ended:remove_timeseries", "moving-window-tier", "moving-window-tier:align:none",
@@ -52,7 +52,7 @@ def gen(rng: Any, tier: str, i: int) -> Any:
         return gen_actor(rng)
     if r0 < 0.34:
         return gen_mw(rng)
-    period = rng.choice([0.1, 0.2, 1.0, 1.0, 2.5, 60.0])
+    period = rng.choice([0.1, 0.2, 1.0, 1.0, 2.5, 60.0, 7.0, 3600.0])
     ak = rng.choice(["none", "epoch", "past", "future"])
     align = {"none": None, "epoch": 0.0, "past": -rng.choice([0.3, 7.123456, 1234.5]) * 1.0,
              "future": rng.choice([1000.0, 86400.0 + 0.25, 3.3])}[ak]
@@ -92,7 +92,8 @@ def gen(rng: Any, tier: str, i: int) -> Any:
         if l >= 1.0:
             series[-1]["add_at"] = -1.0  # placeholder: resolved by the driver relative to that tick
             series[-1]["add_in_tick"] = [t_no, 0.5 * min(l, 1.0)]
-    return {"period": period, "align": align, "align_kind": ak, "start_offset": start, "max_age": 3.0, "init_len": 4,
+    tz_min = rng.choice([0, 0, 330, -210, 345, 120, -720]) if ak != "none" else 0
+    return {"align_tz_min": tz_min, "period": period, "align": align, "align_kind": ak, "start_offset": start, "max_age": 3.0, "init_len": 4,
             "max_len": 16, "ticks": ticks, "series": series, "lat": lat, "drain_periods": maxlat + 3, "phase": phase}
 
 
@@ -380,6 +381,8 @@ def check(case: dict[str, Any], rec: Any) -> None:
     p = c["period"]
     per = timedelta(seconds=p)
     rec.bucket("align:" + {"none": "none", "epoch": "epoch", "past": "past-nonmultiple", "future": "future"}[c["align_kind"]])
+    if c.get("align_tz_min"):
+        rec.bucket("align_to-in-non-utc-timezone")
     if c["phase"] == 0.0:
         rec.bucket("creation-exactly-aligned")
     if abs(c["phase"]) == 1e-6:
